@@ -60,10 +60,77 @@ def run(tier, rep):
                 'pre-filled event) compared bit for bit with the canonical history; working parameters compared after re-initialisation; one long history of N shots; '
                 'non-trivial = history on a configuration whose probe events hold >= 2 particles' % (dB, len(dxlib.bkg_all())),
     })
+    collisions(tier, rep)
     rep.assumptions += ['equality is bit-for-bit on particle codes, times, momenta, event time, label and deviates consumed',
                         'the long history is one deterministic history per configuration (N=1e4 quick, 1e6 thorough), stated as such']
 
 
+def collisions(tier, rep):
+    """Collision histories: a per-thread cache keyed on part of a helper's arguments only misbehaves when two DIFFERENT decay
+    schemes are run back to back and consecutive helper calls agree in the remembered argument and differ in a forgotten one.
+    The reference model logs every call of the beta samplers (unit, Q, Z, shape coefficients) on every execution of its
+    layer-A exploration; all ordered pairs of calls that agree in Q and differ elsewhere are turned into histories: the
+    predecessor's recorded execution (its colliding call last) is shot on its own working set before EVERY port shot of the
+    successor, which is explored around its recorded execution (colliding call first) and compared with the history-free model."""
+    names = dxlib.bkg_all()
+    res, d = dxlib.run_dx('plain', ['bkg %s' % n for n in names], 'c07calls', 'A', 'ref', deadline=300, extra=['--calls'])
+    groups = {}
+    ncalls = 0
+    for r in res:
+        if 'crashed' in r or not r.get('ref_available'):
+            continue
+        for c in r.get('calls', []):
+            ncalls += 1
+            groups.setdefault((c['unit'], repr(c['args'][0])), []).append((r['config']['name'], c))
+
+    def ftxt(f):
+        return ','.join('%s:%.17g' % (k, v) for k, v in sorted(f.items(), key=lambda kv: int(kv[0]))) or '-'
+    lines = []
+    seen = set()
+    for (unit, q), lst in sorted(groups.items()):
+        for pn, pc in lst:
+            for sn, sc in lst:
+                if pc['args'] == sc['args'] or pc['last'] is None or sc['first'] is None:
+                    continue
+                key = (sn, tuple(sc['args']), pn, tuple(pc['args']))
+                if key in seen:
+                    continue
+                seen.add(key)
+                lines.append('bkg %s 0 0 -1 -1 HIST bkg %s %s START %s' % (sn, pn, ftxt(pc['last']), ftxt(sc['first'])))
+    if tier == 'quick':
+        lines = [l for i, l in enumerate(lines) if i % 2 == vlib.SEED % 2]
+    ex = tr = 0
+    nhist = 0
+    if lines:
+        res2, d2 = dxlib.run_dx('plain', lines, 'c07coll', 'H', 'ref', deadline=300)
+        for r in res2:
+            if 'crashed' in r:
+                rep.violation('collision:%s:crash' % r['key'], 'explorer child died (%s) on %s' % (r['crashed'], r['key']))
+                continue
+            if not r.get('hist_active'):
+                raise SystemExit('HARNESS-ERROR: history working set of %s did not initialise' % r['key'])
+            nhist += 1
+            ex += r['executions']; tr += r['transitions']
+            for v in r['violations']:
+                if v['oracle'] != 'ref':
+                    continue
+                if v.get('replay') == 'NONDETERMINISTIC':
+                    raise SystemExit('HARNESS-ERROR: nondeterministic replay for %s' % r['key'])
+                c = r['config']
+                rep.violation('collision:%s:after:%s:%s' % (c['name'], c['hist'].split()[1], dxlib.why_class(v['why'])),
+                              '%s decayed right after %s in the same thread (history deviates %s): %s (forced=%s)' % (c['name'], c['hist'].split()[1], c['hist'].split()[2], v['why'], v['forced']),
+                              dxlib.replay_text(r, v, 'genbbsub'))
+    rep.coverage['evaluations'] += ex
+    rep.coverage['collision_histories'] = {'beta_sampler_calls_logged': ncalls, 'distinct_Q_groups': len(groups), 'ordered_colliding_pairs': len(seen),
+                                           'pairs_explored': nhist, 'executions': ex, 'edges': tr,
+                                           'rule': 'all ordered pairs of beta-sampler calls (logged by the model over the layer-A executions of every reference nuclide) that agree in Q and '
+                                                   'differ in another argument; layer H: every position of the successor\'s recorded execution gets tails, mid, both sides of every '
+                                                   'threshold and the 24-point shape sweep; quick tier: every second pair'}
+
+
 def replay(path):
-    print(open(path).read())
+    txt = open(path).read()
+    if txt.startswith(('bkg ', 'dbd ')):
+        return dxlib.replay(path)
+    print(txt)
     return 1
